@@ -8,15 +8,16 @@ pub(crate) mod verif_rig_multi {
 
     /// empty MultiState over the given draw target
     pub(crate) fn rig_multi(target: ProgressDrawTarget) -> MultiState {
-        MultiState {
-            members: Vec::with_capacity(CAPM),
-            free_set: Vec::with_capacity(CAPM),
-            ordering: Vec::with_capacity(CAPM),
-            draw_target: target,
-            alignment: MultiProgressAlignment::Top,
-            orphan_lines: Vec::with_capacity(4),
-            zombie_lines_count: VisualLines::default(),
-        }
+        // through the library's own constructor (so that a field added to MultiState later does not break the rigs), then
+        // with pre-sized vectors (growing a Vec is an allocation of symbolic size for CBMC)
+        let mut ms = MultiState::new(target);
+        ms.members = Vec::with_capacity(CAPM);
+        ms.free_set = Vec::with_capacity(CAPM);
+        ms.ordering = Vec::with_capacity(CAPM);
+        ms.alignment = MultiProgressAlignment::Top;
+        ms.orphan_lines = Vec::with_capacity(4);
+        ms.zombie_lines_count = VisualLines::default();
+        ms
     }
 
     /// append a member slot (in `ordering`), optionally with a drawn state of `rows` one-row bar lines tagged `letter`
